@@ -150,6 +150,8 @@ def model_term(c, o):
         # schedule the harness cannot name task by task; these histories are judged by the oracle alone
         # (the model's channel is unbounded and never drops: its theorems cover every such schedule)
         return None
+    if c.get("tag") == "large-torn":
+        return None      # records of 300 KiB - 1 MiB: oracle only (lists of a million bytes are too slow inside coqc)
     if c.get("kind") == "stress":
         return None      # oracle-only: real parallelism has no schedule the model could be run on
     if c.get("kind") == "header":
@@ -317,6 +319,7 @@ class Trace:
         self.range_set = None      # responsible range the history last set (not persisted across a restart)
         self.threshold = o.get("consts", {}).get("max_records_count", 16384) // 10
         self.no_eviction = c["cfg"]["max_records"] > len(c["keys"])
+        self.removed_now = set()
         self.flags = set()
 
     def steps(self):
@@ -352,6 +355,7 @@ class Trace:
             pre = post
 
     def removed(self, k, pre):
+        self.removed_now.add(k)
         if self.unacked[k] > 0:
             self.relist_risk[k] = True
             self.flags.add("remove-while-unacked")
@@ -359,6 +363,7 @@ class Trace:
 
     def account(self, op, out, pre, post):
         name = op["op"]
+        self.removed_now = set()
         pre_idx = {a for a, _ in pre["idx"]}
         post_idx = {a for a, _ in post["idx"]}
         if name in ("put", "put_local"):
@@ -416,7 +421,10 @@ class Trace:
                 self.unacked[k] = 0
                 self.last[k] = None
                 self.relist_risk[k] = False
-            self.pays = pre["metrics"][0] if pre["metrics"] is not None else 0
+            # a clean restart (no background task left, so every metrics flush has run) keeps every payment;
+            # a crash keeps what the metrics file held
+            if pre["ntasks"] != 0:
+                self.pays = pre["metrics"][0] if pre["metrics"] is not None else 0
             self.burst = False
             self.range_set = None
 
@@ -487,6 +495,12 @@ def oracle(c, o):
                           % (i, op["op"], k, "value %d" % g if g < NF else "bytes of no known value / a wrong key")))
         if op["op"] == "get" and out["get"] != NF and out["get"] not in t.hist[op["k"]]:
             v.append(("get-foreign-value", "step %d: get(key %d) returned a value never handed in for it" % (i, op["k"])))
+        # a key taken out by this very step (explicit remove, eviction, clean-up, failed write) is not served any more,
+        # settled or not: the removal clears the index entry and the read-cache entry at once
+        for k in t.removed_now:
+            if k < t.nk and post["gets"][k] != NF and not (op["op"] in ("put", "put_local") and op["k"] == k):
+                v.append(("removed-still-readable", "step %d (%s): key %d was just removed but get still returns value %s "
+                          "(left in the read cache?)" % (i, op["op"], k, post["gets"][k])))
         # a served record is held or a write of it is still unacknowledged (holds since the repair of put_verified)
         if not t.partial:
             held_now = {a for a, _ in post["idx"]}
@@ -627,10 +641,16 @@ def gen(ctx):
         case_peer = bytes(rng.getrandbits(8) for _ in range(32))
         byd = sorted(range(n), key=lambda k: py_distance(case_peer, keys[k]))
         ops = [{"op": "put", "k": k, "v": 0, "t": 0, "nodump": True} for k in range(n)]
+        ops.append({"op": "settle", "nodump": True})
+        # the LAST puts before the clean-up include keys beyond the range (they sit in the 25-entry read cache) and
+        # keys inside it
+        recent = rng.sample(byd[(2 * n) // 3 + 1:], 9) + rng.sample(byd[:(2 * n) // 3], 5)
+        rng.shuffle(recent)
+        ops += [{"op": "put", "k": k, "v": 1, "t": 0, "nodump": True} for k in recent]
         ops += [{"op": "settle"}, {"op": "set_range_at", "k": byd[(2 * n) // 3], "delta": rng.choice([-1, 0, 1]), "nodump": True},
-                {"op": "cleanup"}, {"op": "get", "k": byd[-1], "nodump": True}, {"op": "settle"},
+                {"op": "cleanup"}, {"op": "get", "k": recent[0], "nodump": True}, {"op": "settle"},
                 {"op": "put", "k": byd[-2], "v": 1, "t": 0, "nodump": True}, {"op": "settle"}]
-        cc = mk_case(rng, keys, vals, ops, 16384, rng.choice([1, 25]), "cleanup-%d" % n)
+        cc = mk_case(rng, keys, vals, ops, 16384, 25, "cleanup-%d" % n)
         cc["cfg"]["peer"] = case_peer.hex()
         cases.append(cc)
     # PARALLEL STRESS (oracle only): multi-thread runtime, 100+ validated puts of 256-512 KiB to distinct keys back
